@@ -707,6 +707,24 @@ fn plumbing_case(cfg: &Config, idx: u64, rng: &mut Rng, out: &mut Local) {
         let mut c = TextDiff::configure();
         c.algorithm(alg).deadline(t_abs + Duration::from_secs(5)).deadline(t_abs);
         run("deadline(t').deadline(t)", &c, true, false, out);
+        // timeouts too large to be added to `now` mean "no deadline": no panic, same result
+        for d_huge in [Duration::MAX, Duration::from_secs(u64::MAX), Duration::from_secs(u64::MAX / 2)] {
+            vh::set_clock(vh::Clock::Off);
+            let none = guard(|| TextDiff::configure().algorithm(alg).diff_slices(&ta, &tb).ops().to_vec());
+            let huge = guard(|| TextDiff::configure().algorithm(alg).timeout(d_huge).diff_slices(&ta, &tb).ops().to_vec());
+            out.evals_add(2);
+            match (none, huge) {
+                (Ok(x), Ok(y)) => {
+                    if x != y {
+                        out.violation("deadline.never_expiring_differs", format!("timeout({:?}) gives {} but no deadline gives {} | alg={}", d_huge, fmt_ops(&y), fmt_ops(&x), alg_name(alg)));
+                    } else {
+                        out.count("huge_timeouts_verified");
+                    }
+                }
+                (_, Err(p)) => out.violation("panic", format!("TextDiff::configure().timeout({:?}) panicked: {} | alg={}", d_huge, p, alg_name(alg))),
+                _ => {}
+            }
+        }
         // a cloned config keeps its deadline
         let mut c = TextDiff::configure();
         c.algorithm(alg).deadline(t_abs);
